@@ -290,11 +290,14 @@ pub fn oracle_defect(tc: &TypeCorpus, cons: Cons, d: Defect, seed: u64) -> Resul
         }
         Defect::TooManyCells => {
             // every satellite and signal used, at most 64 rows in each list, but |S| x |G| > 64
-            let ng2 = table.len().min(2 + rng.below(6) as usize).max(2);
-            if ng2 < 2 {
+            // |G| anywhere up to the whole table, |S| either just above 64/|G| or anywhere up to 64: products from 65 to
+            // 64 x |table| (a count kept in 8 bits wraps at 256)
+            let ng2 = if rng.below(2) == 0 { table.len().min(2 + rng.below(6) as usize).max(2) } else { 2 + rng.below(table.len() as u64 - 1) as usize };
+            if ng2 < 2 || ng2 > table.len() {
                 return Ok(());
             }
-            let ns2 = (64 / ng2 + 1 + rng.below(8) as usize).min(64);
+            let lo = (64 / ng2 + 1).max(ng2);
+            let ns2 = if rng.below(2) == 0 { (lo + rng.below(8) as usize).min(64) } else { lo + rng.below((64 - lo + 1) as u64) as usize };
             sats = (1..=64).collect();
             rng.shuffle(&mut sats);
             sats.truncate(ns2);
